@@ -1,13 +1,193 @@
 pub mod ed25519_dalek {
     use vstd::prelude::*;
+    use crate::cryptospec::*;
     verus!{
     pub mod ed25519 { #[derive(Debug)] pub struct Error; }
+    pub type SignatureError = ed25519::Error;
     pub const SIGNATURE_LENGTH: usize = 64;
+    #[verifier::external_body] pub struct VerifyingKey { _x: u8 }
+    #[verifier::external_body] pub struct SigningKey { _x: u8 }
+    #[verifier::external_body] pub struct Signature { _x: u8 }
+    impl View for VerifyingKey { type V = Seq<u8>; uninterp spec fn view(&self) -> Seq<u8>; }
+    impl View for SigningKey { type V = Seq<u8>; uninterp spec fn view(&self) -> Seq<u8>; }   // keypair bytes seed||public
+    impl View for Signature { type V = Seq<u8>; uninterp spec fn view(&self) -> Seq<u8>; }
+    impl VerifyingKey {
+        #[verifier::external_body]
+        pub fn from_bytes(bytes: &[u8; 32]) -> (r: Result<VerifyingKey, SignatureError>)
+            ensures ed25519_pk_ok(bytes@) <==> r is Ok, r is Ok ==> r->Ok_0@ == bytes@
+        { unimplemented!() }
+    }
+    impl SigningKey {
+        #[verifier::external_body]
+        pub fn from_keypair_bytes(bytes: &[u8; 64]) -> (r: Result<SigningKey, SignatureError>)
+            ensures ed25519_keypair_ok(bytes@) <==> r is Ok, r is Ok ==> r->Ok_0@ == bytes@
+        { unimplemented!() }
+    }
+    impl Signature {
+        #[verifier::external_body]
+        pub fn to_bytes(&self) -> (r: [u8; 64]) ensures r@ == self@ { unimplemented!() }
+    }
+    impl<'a> TryFrom<&'a [u8]> for Signature {
+        type Error = ed25519::Error;
+        #[verifier::external_body]
+        fn try_from(bytes: &'a [u8]) -> (r: Result<Signature, ed25519::Error>)
+            ensures bytes@.len() == 64 <==> r is Ok, r is Ok ==> r->Ok_0@ == bytes@
+        { unimplemented!() }
+    }
+    impl<'a> vstd::std_specs::convert::TryFromSpecImpl<&'a [u8]> for Signature {
+        open spec fn obeys_try_from_spec() -> bool { false }
+        uninterp spec fn try_from_spec(v: &'a [u8]) -> Result<Self, ed25519::Error>;
+    }
+    pub trait Verifier {
+        spec fn vk(&self) -> Seq<u8>;
+        fn verify(&self, msg: &[u8], signature: &Signature) -> (r: Result<(), SignatureError>)
+            ensures r is Ok <==> ed25519_verify(self.vk(), msg@, signature@);
+    }
+    pub trait Signer {
+        spec fn sk(&self) -> Seq<u8>;
+        fn sign(&self, msg: &[u8]) -> (r: Signature) ensures r@ == ed25519_sign(self.sk(), msg@);
+    }
+    impl Verifier for VerifyingKey {
+        open spec fn vk(&self) -> Seq<u8> { self@ }
+        #[verifier::external_body]
+        fn verify(&self, msg: &[u8], signature: &Signature) -> (r: Result<(), SignatureError>) { unimplemented!() }
+    }
+    impl Signer for SigningKey {
+        open spec fn sk(&self) -> Seq<u8> { self@ }
+        #[verifier::external_body]
+        fn sign(&self, msg: &[u8]) -> (r: Signature) { unimplemented!() }
+    }
     }
 }
 pub mod p384 {
     use vstd::prelude::*;
+    use crate::cryptospec::*;
+    use crate::generic_array::*;
+    use crate::glue::*;
     verus!{
-    pub mod ecdsa { #[derive(Debug)] pub struct Error; }
+    #[verifier::external_body] pub struct PublicKey { _x: u8 }
+    impl View for PublicKey { type V = Seq<u8>; uninterp spec fn view(&self) -> Seq<u8>; }   // the SEC1 bytes it was parsed from
+    #[verifier::external_body] pub struct EncodedPoint { _x: u8 }
+    impl View for EncodedPoint { type V = Seq<u8>; uninterp spec fn view(&self) -> Seq<u8>; }
+    impl AsRef<[u8]> for EncodedPoint {
+        #[verifier::external_body]
+        fn as_ref(&self) -> (r: &[u8]) ensures r@ == self@ { unimplemented!() }
+    }
+    pub broadcast axiom fn ax_asref_encoded_point(p: &EncodedPoint)
+        ensures (#[trigger] as_ref_spec::<EncodedPoint, [u8]>(p))@ == p@;
+    #[derive(Debug)] pub struct Error;
+    impl PublicKey {
+        #[verifier::external_body]
+        pub fn from_sec1_bytes(bytes: &[u8]) -> (r: Result<PublicKey, Error>)
+            ensures p384_pk_ok(bytes@) <==> r is Ok, r is Ok ==> r->Ok_0@ == bytes@
+        { unimplemented!() }
+    }
+    pub mod elliptic_curve { pub mod sec1 {
+        use vstd::prelude::*;
+        use crate::cryptospec::*;
+        verus!{
+        pub trait ToEncodedPoint {
+            spec fn point_sec1(&self) -> Seq<u8>;
+            fn to_encoded_point(&self, compress: bool) -> (r: super::super::EncodedPoint)
+                ensures compress ==> r@ == p384_compress(self.point_sec1());
+        }
+        }
+    } }
+    impl elliptic_curve::sec1::ToEncodedPoint for PublicKey {
+        open spec fn point_sec1(&self) -> Seq<u8> { self@ }
+        #[verifier::external_body]
+        fn to_encoded_point(&self, compress: bool) -> (r: EncodedPoint) { unimplemented!() }
+    }
+    pub mod ecdsa {
+        use vstd::prelude::*;
+        use crate::cryptospec::*;
+        use crate::generic_array::*;
+        use super::EncodedPoint;
+        verus!{
+        #[derive(Debug)] pub struct Error;
+        #[verifier::external_body] pub struct VerifyingKey { _x: u8 }
+        impl View for VerifyingKey { type V = Seq<u8>; uninterp spec fn view(&self) -> Seq<u8>; }   // compressed SEC1 point
+        #[verifier::external_body] pub struct SigningKey { _x: u8 }
+        impl View for SigningKey { type V = Seq<u8>; uninterp spec fn view(&self) -> Seq<u8>; }     // 48-byte scalar
+        #[verifier::external_body] pub struct Signature { _x: u8 }
+        impl View for Signature { type V = Seq<u8>; uninterp spec fn view(&self) -> Seq<u8>; }
+        pub type FieldBytes = GenericArray<U48>;
+        // <&GenericArray<u8, U48>>::from(&[u8]) panics unless the slice has 48 bytes
+        impl<'a> From<&'a [u8]> for &'a FieldBytes {
+            #[verifier::external_body]
+            fn from(a: &'a [u8]) -> (r: &'a FieldBytes) ensures a@.len() == 48 ==> r@ == a@ { unimplemented!() }
+        }
+        impl<'a> vstd::std_specs::convert::FromSpecImpl<&'a [u8]> for &'a FieldBytes {
+            open spec fn obeys_from_spec() -> bool { false } uninterp spec fn from_spec(v: &'a [u8]) -> Self;
+        }
+        impl VerifyingKey {
+            #[verifier::external_body]
+            pub fn from_sec1_bytes(bytes: &[u8]) -> (r: Result<VerifyingKey, Error>)
+                ensures p384_pk_ok(bytes@) <==> r is Ok, r is Ok ==> r->Ok_0@ == p384_compress(bytes@)
+            { unimplemented!() }
+        }
+        impl<'a> From<&'a SigningKey> for VerifyingKey {
+            #[verifier::external_body]
+            fn from(sk: &'a SigningKey) -> (r: VerifyingKey) ensures r@ == p384_pk_of_sk(sk@) { unimplemented!() }
+        }
+        impl<'a> vstd::std_specs::convert::FromSpecImpl<&'a SigningKey> for VerifyingKey {
+            open spec fn obeys_from_spec() -> bool { false } uninterp spec fn from_spec(v: &'a SigningKey) -> Self;
+        }
+        impl super::elliptic_curve::sec1::ToEncodedPoint for VerifyingKey {
+            open spec fn point_sec1(&self) -> Seq<u8> { self@ }
+            #[verifier::external_body]
+            fn to_encoded_point(&self, compress: bool) -> (r: EncodedPoint) { unimplemented!() }
+        }
+        impl SigningKey {
+            #[verifier::external_body]
+            pub fn from_bytes(bytes: &FieldBytes) -> (r: Result<SigningKey, Error>)
+                ensures p384_sk_ok(bytes@) <==> r is Ok, r is Ok ==> r->Ok_0@ == bytes@
+            { unimplemented!() }
+        }
+        impl Signature {
+            #[verifier::external_body]
+            pub fn to_bytes(&self) -> (r: GenericArray<U96>) ensures r@ == self@ { unimplemented!() }
+        }
+        impl<'a> TryFrom<&'a [u8]> for Signature {
+            type Error = Error;
+            #[verifier::external_body]
+            fn try_from(bytes: &'a [u8]) -> (r: Result<Signature, Error>)
+                ensures (bytes@.len() == 96 && p384_sig_ok(bytes@)) <==> r is Ok, r is Ok ==> r->Ok_0@ == bytes@
+            { unimplemented!() }
+        }
+        impl<'a> vstd::std_specs::convert::TryFromSpecImpl<&'a [u8]> for Signature {
+            open spec fn obeys_try_from_spec() -> bool { false }
+            uninterp spec fn try_from_spec(v: &'a [u8]) -> Result<Self, Error>;
+        }
+        pub mod signature {
+            use vstd::prelude::*;
+            use crate::cryptospec::*;
+            use super::*;
+            verus!{
+            // digest-based signing / verification: the digest object carries the bytes absorbed so far
+            pub trait DigestVerifier {
+                spec fn vk(&self) -> Seq<u8>;
+                fn verify_digest(&self, digest: crate::sha2::Sha384State, signature: &Signature) -> (r: Result<(), Error>)
+                    ensures r is Ok <==> p384_verify(self.vk(), digest@, signature@);
+            }
+            pub trait DigestSigner {
+                spec fn sk(&self) -> Seq<u8>;
+                fn try_sign_digest(&self, digest: crate::sha2::Sha384State) -> (r: Result<Signature, Error>)
+                    ensures r is Ok ==> p384_sign_rel(self.sk(), digest@, r->Ok_0@);
+            }
+            impl DigestVerifier for VerifyingKey {
+                open spec fn vk(&self) -> Seq<u8> { self@ }
+                #[verifier::external_body]
+                fn verify_digest(&self, digest: crate::sha2::Sha384State, signature: &Signature) -> (r: Result<(), Error>) { unimplemented!() }
+            }
+            impl DigestSigner for SigningKey {
+                open spec fn sk(&self) -> Seq<u8> { self@ }
+                #[verifier::external_body]
+                fn try_sign_digest(&self, digest: crate::sha2::Sha384State) -> (r: Result<Signature, Error>) { unimplemented!() }
+            }
+            }
+        }
+        }
+    }
     }
 }
